@@ -454,6 +454,26 @@ def run_other(case):
     return {'nt': exp != 0, 'labels': [kind, case['route']]}
 
 
+def enum_other(tier):
+    """complete boundary grids: mxint at every multiple of 1/256 in [-2.25, 2.25] (all ties and quarter points, the saturation edges) and one ulp either side;
+    e8m0 at every power of two 2**-135 .. 2**135, its float neighbours, 1.5x, the negative, plus the specials"""
+    k = 0
+    for q4 in range(-576, 577):
+        base = q4 / 256.0
+        for x in (base, math.nextafter(base, math.inf), math.nextafter(base, -math.inf)):
+            k += 1
+            yield {'kind': 'mxint', 'x': x.hex(), 'route': ROUTES[k % len(ROUTES)], 'read': READS[k % len(READS)], 'cls': 'Bits'}
+    for e in range(-135, 136):
+        p2 = math.ldexp(1.0, e)
+        for x in (p2, math.nextafter(p2, math.inf), math.nextafter(p2, 0.0), p2 * 1.5, -p2):
+            k += 1
+            yield {'kind': 'e8m0mxfp', 'x': x.hex(), 'route': ROUTES[k % len(ROUTES)], 'read': READS[k % len(READS)], 'cls': 'Bits'}
+    for kind in ('mxint', 'e8m0mxfp'):
+        for x in (0.0, -0.0, math.inf, -math.inf, 5e-324, 1e300, -1e300):
+            for route in ROUTES:
+                yield {'kind': kind, 'x': x.hex(), 'route': route, 'read': 'prop', 'cls': 'BitArray'}
+
+
 @st.composite
 def scaled_case(draw, tier):
     name = draw(st.sampled_from(sorted(FORMATS) + ['mxint', 'bfloat', 'float16', 'e8m0mxfp', 'mxint', 'e8m0mxfp']))
@@ -607,6 +627,9 @@ SUBCHECKS = [
         enum_exhaustive_note='all 65536 half-precision bit patterns x 7 formats x mxfp_overflow in {saturate, overflow} (both tiers)'),
     Sub('C11.encode_float64_path', run_f64, strategy=f64_case, examples={'quick': 10000, 'thorough': 200000}, ambient=('bytealigned', 'lsb0')),
     Sub('C11.e8m0_mxint_bfloat', run_other, strategy=other_case, examples={'quick': 8000, 'thorough': 100000}, ambient=('bytealigned', 'lsb0')),
+    Sub('C11.mxint_e8m0_grid', run_other, enum=enum_other,
+        enum_exhaustive_note='mxint: every multiple of 1/256 in [-2.25, 2.25] and its two float neighbours (all rounding ties, quarter points and both saturation edges); '
+                             'e8m0: every power of two 2**-135..2**135, its two float neighbours, 1.5x and its negative; zeros, infinities and extremes through every route'),
     Sub('C11.scaled', run_scaled, strategy=scaled_case, examples={'quick': 6000, 'thorough': 80000}, ambient=('bytealigned',)),
     Sub('C11.auto_scale', run_auto, strategy=auto_case, examples={'quick': 4000, 'thorough': 50000}, ambient=('bytealigned',)),
 ]
